@@ -16,6 +16,8 @@
 #include "clang/Tooling/CompilationDatabase.h"
 #include "clang/Tooling/Tooling.h"
 #include "llvm/Support/JSON.h"
+#include "llvm/Support/MemoryBuffer.h"
+#include "llvm/Support/VirtualFileSystem.h"
 #include "llvm/Support/raw_ostream.h"
 #include <map>
 #include <set>
@@ -933,6 +935,33 @@ public:
     }
   }
 
+  void emitGlobalInit(const VarDecl* VD)
+  {
+    if (!VD->isFileVarDecl() || !VD->hasInit() || VD->isInvalidDecl())
+      return;
+    if (!inRepo(VD->getLocation()))
+      return;
+    if (VD->getType()->isDependentType() || VD->getInit()->isValueDependent() || VD->getInit()->isTypeDependent())
+      return;
+    if (VD->getDeclContext()->isDependentContext())
+      return;
+    if (!SeenFn.insert(VD).second)
+      return;
+    json::Object g;
+    g["q"]    = qname(VD);
+    g["file"] = fileOf(VD->getLocation());
+    g["line"] = lineOf(VD->getLocation());
+    g["t"]    = typeId(VD->getType());
+    std::string m = macroOf(VD->getLocation());
+    if (!m.empty())
+      g["m"] = m;
+    auto* saved = ElemMap;
+    ElemMap     = nullptr;
+    g["init"]   = X(VD->getInit());
+    ElemMap     = saved;
+    line("G", qname(VD), std::move(g));
+  }
+
   void emitVar(const VarDecl* VD)
   {
     if (!VD->isFileVarDecl() && !VD->isStaticLocal())
@@ -986,6 +1015,7 @@ public:
   }
   bool VisitVarDecl(VarDecl* VD)
   {
+    Ex.emitGlobalInit(VD);
     Ex.emitVar(VD);
     return true;
   }
@@ -1059,11 +1089,14 @@ int main(int argc, const char** argv)
     return 2;
   }
   gOutPath = argv[1];
+  std::string overlay;
   int i    = 2;
   for (; i < argc && std::string(argv[i]) != "--"; i++) {
     std::string a = argv[i];
     if (a.rfind("--root=", 0) == 0)
       gRoot = a.substr(7);
+    if (a.rfind("--overlay=", 0) == 0)
+      overlay = a.substr(10);
   }
   if (i >= argc - 1)
     return 2;
@@ -1071,8 +1104,24 @@ int main(int argc, const char** argv)
   for (int j = i + 1; j < argc - 1; j++)
     args.push_back(argv[j]);
   std::string file = argv[argc - 1];
+  llvm::IntrusiveRefCntPtr<llvm::vfs::FileSystem> FS = llvm::vfs::getRealFileSystem();
+  if (!overlay.empty()) {
+    auto Buf = llvm::MemoryBuffer::getFile(overlay);
+    if (!Buf) {
+      llvm::errs() << "sgx: cannot read overlay " << overlay << "\n";
+      return 2;
+    }
+    auto RFS = llvm::vfs::getVFSFromYAML(std::move(*Buf), nullptr, overlay, nullptr, FS);
+    if (!RFS) {
+      llvm::errs() << "sgx: bad overlay " << overlay << "\n";
+      return 2;
+    }
+    llvm::IntrusiveRefCntPtr<llvm::vfs::OverlayFileSystem> Ov(new llvm::vfs::OverlayFileSystem(FS));
+    Ov->pushOverlay(llvm::IntrusiveRefCntPtr<llvm::vfs::FileSystem>(std::move(RFS)));
+    FS = Ov;
+  }
   clang::tooling::FixedCompilationDatabase DB(".", args);
-  clang::tooling::ClangTool Tool(DB, {file});
+  clang::tooling::ClangTool Tool(DB, {file}, std::make_shared<PCHContainerOperations>(), FS);
   int rc = Tool.run(clang::tooling::newFrontendActionFactory<Action>().get());
   return rc;
 }
